@@ -6,27 +6,30 @@ import ast
 from . import AnalysisError
 from .model import U
 
-KINDS = ['object', 'str', 'int', 'float', 'bool', 'other']
+KINDS = ['object', 'str', 'int', 'int32', 'float', 'float32', 'bool', 'other']     # int = int64, int32 = another integer width; float = float64, float32 = another float width
 RAISES = 'RAISES'
 UNKNOWN = None
 
 # np.issubdtype(<kind>, <abstract class>)
 _SUB = {
-    'integer': {'object': False, 'str': RAISES, 'int': True, 'float': False, 'bool': False, 'other': False},
-    'floating': {'object': False, 'str': RAISES, 'int': False, 'float': True, 'bool': False, 'other': False},
-    'number': {'object': False, 'str': RAISES, 'int': True, 'float': True, 'bool': False, 'other': False},
-    'object_': {'object': True, 'str': RAISES, 'int': False, 'float': False, 'bool': False, 'other': False},
+    'integer': {'object': False, 'str': RAISES, 'int': True, 'int32': True, 'float32': False, 'float': False, 'bool': False, 'other': False},
+    # the builtin `int` / np.int64 name ONE width: np.issubdtype(np.int32, int) is False
+    'int64': {'object': False, 'str': RAISES, 'int': True, 'int32': False, 'float32': False, 'float': False, 'bool': False, 'other': False},
+    'float64': {'object': False, 'str': RAISES, 'int': False, 'int32': False, 'float32': False, 'float': True, 'bool': False, 'other': False},
+    'floating': {'object': False, 'str': RAISES, 'int': False, 'int32': False, 'float32': True, 'float': True, 'bool': False, 'other': False},
+    'number': {'object': False, 'str': RAISES, 'int': True, 'int32': True, 'float32': True, 'float': True, 'bool': False, 'other': False},
+    'object_': {'object': True, 'str': RAISES, 'int': False, 'int32': False, 'float32': False, 'float': False, 'bool': False, 'other': False},
 }
-_SUB_NAMES = {'np.integer': 'integer', 'numpy.integer': 'integer', 'int': 'integer', 'np.int64': 'integer',
-              'np.floating': 'floating', 'float': 'floating', 'np.float64': 'floating', 'np.number': 'number',
+_SUB_NAMES = {'np.integer': 'integer', 'numpy.integer': 'integer', 'int': 'int64', 'np.int64': 'int64', 'np.int_': 'int64',
+              'np.floating': 'floating', 'numpy.floating': 'floating', 'float': 'float64', 'np.float64': 'float64', 'np.float_': 'float64', 'np.number': 'number',
               'np.object_': 'object_', 'object': 'object_'}
 _IS = {
-    'is_string_dtype': {'object': True, 'str': True, 'int': False, 'float': False, 'bool': False, 'other': False},
-    'is_object_dtype': {'object': True, 'str': False, 'int': False, 'float': False, 'bool': False, 'other': False},
-    'is_integer_dtype': {'object': False, 'str': False, 'int': True, 'float': False, 'bool': False, 'other': False},
-    'is_float_dtype': {'object': False, 'str': False, 'int': False, 'float': True, 'bool': False, 'other': False},
-    'is_numeric_dtype': {'object': False, 'str': False, 'int': True, 'float': True, 'bool': True, 'other': False},
-    'is_bool_dtype': {'object': False, 'str': False, 'int': False, 'float': False, 'bool': True, 'other': False},
+    'is_string_dtype': {'object': True, 'str': True, 'int': False, 'int32': False, 'float32': False, 'float': False, 'bool': False, 'other': False},
+    'is_object_dtype': {'object': True, 'str': False, 'int': False, 'int32': False, 'float32': False, 'float': False, 'bool': False, 'other': False},
+    'is_integer_dtype': {'object': False, 'str': False, 'int': True, 'int32': True, 'float32': False, 'float': False, 'bool': False, 'other': False},
+    'is_float_dtype': {'object': False, 'str': False, 'int': False, 'int32': False, 'float32': True, 'float': True, 'bool': False, 'other': False},
+    'is_numeric_dtype': {'object': False, 'str': False, 'int': True, 'int32': True, 'float32': True, 'float': True, 'bool': True, 'other': False},
+    'is_bool_dtype': {'object': False, 'str': False, 'int': False, 'int32': False, 'float32': False, 'float': False, 'bool': True, 'other': False},
 }
 
 
